@@ -72,15 +72,15 @@ def install_der_model(KEYS, env_holder):
         env = env_holder[0]
         out = []
         for v in (r, s):
-            n = None
             if isinstance(v, int):
-                n = max(1, (v.bit_length() + 7) // 8)
-            else:
-                for cand in range(1, 68):
-                    if env.is_true(v < (1 << (8 * cand))):
-                        n = cand
-                        break
-            out.append(_num_items(env, v, n))
+                out.append(list(v.to_bytes(max(1, (v.bit_length() + 7) // 8), "big")))
+                continue
+            # widest possible rendering from the interval of the term, then leading zero bytes are stripped by byte tests
+            hi = v.hi if v.hi is not None else (1 << 528) - 1
+            items = _num_items(env, v, max(1, (hi.bit_length() + 7) // 8))
+            while len(items) > 1 and env.is_true(items[0] == 0):
+                items = items[1:]
+            out.append(items)
         return SymBytes.make(model_encode(env, out[0], out[1]))
 
     def decode(sig):
